@@ -37,6 +37,12 @@ pub struct AdversaryKnobs {
     /// rows contain `row` are shifted so that the final value is zero. All transition constraints
     /// except those evaluated on `row` still hold.
     pub sldc_jump_row: Option<usize>,
+    /// `(row, k)`: the permutation argument's running product (per row: the partial products
+    /// `0..num_partial_products`, then `Z` of the next row) is multiplied, from position `k` of row
+    /// `row` to the end of the trace, by the inverse of its final value. The product then closes
+    /// (`Z(g x_last) = 1`) for ANY assignment, and the only relation that fails is the one that
+    /// defines position `(row, k)`.
+    pub zpp_jump: Option<(usize, usize)>,
 }
 
 const WORDS: usize = 8 + 3 * MAX_OVERRIDES;
@@ -52,6 +58,7 @@ const POW: u64 = 16;
 const LENIENT: u64 = 32;
 const SLDC: u64 = 64;
 const SLDCJ: u64 = 128;
+const ZPPJ: u64 = 1 << 20;
 const OVERRIDE0: u64 = 256;
 
 /// Install `k` (process-wide).
@@ -86,6 +93,11 @@ pub fn set(k: AdversaryKnobs) {
     if let Some(r) = k.sldc_jump_row {
         flags |= SLDCJ;
         w[5] = r as u64;
+    }
+    if let Some((r, j)) = k.zpp_jump {
+        flags |= ZPPJ;
+        w[6] = r as u64;
+        w[7] = j as u64;
     }
     for (j, o) in k.override_cells.iter().enumerate() {
         if let Some((r, c, v)) = o {
@@ -122,6 +134,7 @@ pub fn get() -> AdversaryKnobs {
         lenient_trim: f & LENIENT != 0,
         sldc_shift: f & SLDC != 0,
         sldc_jump_row: (f & SLDCJ != 0).then_some(w[5] as usize),
+        zpp_jump: (f & ZPPJ != 0).then_some((w[6] as usize, w[7] as usize)),
         ..Default::default()
     };
     for j in 0..MAX_OVERRIDES {
